@@ -277,4 +277,52 @@ theorem data_untouched (res : Resolve) (rows : List IndexRow) (st out : St)
   obtain ⟨r, ⟨hr, hk⟩, rfl⟩ := hop
   exact hn r hr hk
 
+/-! ### the meaning of a cell is its trimmed text -/
+
+/-- two raw rows whose cells differ only in surrounding whitespace -/
+structure PaddedRow (r r' : RawIndexRow) : Prop where
+  ty : Padded r.ty r'.ty
+  sheetName : Padded r.sheetName r'.sheetName
+  newName : Padded r.newName r'.newName
+  dataSheet : Padded r.dataSheet r'.dataSheet
+  dataRowId : Padded r.dataRowId r'.dataRowId
+  group : Padded r.group r'.group
+  status : Padded r.status r'.status
+  tags : Pointwise Padded r.tags r'.tags
+  tplArgs : r'.tplArgs = r.tplArgs
+
+/-- **read_padded**: surrounding whitespace in any cell of an index row does not change the row read -/
+theorem read_padded {r r' : RawIndexRow} (h : PaddedRow r r') : r'.read = r.read := by
+  have ht : r'.tags.map cellText = r.tags.map cellText := map_cellText_padded h.tags
+  simp only [RawIndexRow.read, cellText_padded h.ty, cellNames_padded h.sheetName,
+    cellText_padded h.newName, cellText_padded h.dataSheet, cellText_padded h.dataRowId,
+    cellText_padded h.group, cellText_padded h.status, ht, h.tplArgs]
+
+/-- hence a history processes as the history with every cell trimmed does -/
+theorem process_padded (res : Resolve) (pats) (fuel : Nat) (st : St) {rows rows' : List RawIndexRow}
+    (h : Pointwise PaddedRow rows rows') :
+    processTable res pats fuel st (rows'.map RawIndexRow.read) =
+      processTable res pats fuel st (rows.map RawIndexRow.read) := by
+  have : rows'.map RawIndexRow.read = rows.map RawIndexRow.read := by
+    induction h with
+    | nil => rfl
+    | cons hp _ ih => simp [read_padded hp, ih]
+  rw [this]
+
+/-- **padded_draft_inert**: a row whose status cell is the draft word with surrounding whitespace
+(`"draft "`, `" draft"`, `"draft\\t"`, `"draft\\u00a0"`, …) is a draft row: it has no effect, whatever
+its type and its other cells -/
+theorem padded_draft_inert (res : Resolve) (pats) (fuel : Nat) (st : St) (r : RawIndexRow)
+    (rs : List IndexRow) (h : Padded draftWord r.status) :
+    processTable res pats fuel st (r.read :: rs) = processTable res pats fuel st rs := by
+  apply inert_rows
+  have : r.read.status = draftWord := by
+    show cellText r.status = draftWord
+    rw [cellText_padded h]; decide
+  simp [inert, this]
+
+example : Padded draftWord ("draft  ".toList) := ⟨[], "  ".toList, by decide, by decide, by decide⟩
+example : (RawIndexRow.read { status := " \tdraft \n".toList, sheetName := " T0 ; T1　".toList }) =
+    { status := "draft".toList, sheetNames := ["T0".toList, "T1".toList] } := by decide
+
 end Rpft.Props.C10
